@@ -37,7 +37,8 @@ ASSUMPTIONS = ['whether a replaced owner is dropped or re-queued is not stated: 
                'a queued (non-owner) client releasing the name is answered RELEASED, as the specification defines '
                'NOT_OWNER as "neither owner nor in the queue"']
 
-NAMES = ['org.verif.my-name0', 'org.verif.N_1']     # a hyphen is legal in bus names (not in interface names): use one
+NAMES = ['org.verif.my-name0', 'org.freedesktop.DBusMenu']     # a hyphen is legal in bus names (not in interface names): use one;
+# only the bus's OWN name is special, names that merely begin like it are ordinary
 BUS = 'org.freedesktop.DBus'
 
 
